@@ -20,7 +20,8 @@ def changeable2 : Item := [some 2, some 1, none, some 0, none]
 
 def aw : Cfg := .asWritten
 /-- the member with every candidate repair applied -/
-def repaired : Cfg := { fastpathRemote := false, u := { mergeStrict := false, selNilPanics := false, emptySelPanics := false } }
+def repaired : Cfg :=
+  { fastpathRemote := false, u := { mergeStrict := false, selNilPanics := false, emptySelPanics := false, inplaceAltersFlag := false } }
 
 /-- a store holding `items` (set by the local application) -/
 def storeOf (items : List Item) : H := (full {} items).1
@@ -107,6 +108,16 @@ theorem flag_altered_selector_witness :
 theorem flag_altered_delete_witness :
     let r := remoteWrite aw (storeOf [changeable0, changeable2]) [] .nil (.data ⟨some (selId 0), some elFlag⟩)
     r.1.readStore.map (·.get 1) = [none, some 1] := by decide
+
+/-- the three writes above leave every flag alone in the member whose in-place paths put the flag back
+    (`patches/C04-flag-altered-candidate.patch`); the values they carry are applied -/
+theorem flag_altered_repaired_witness :
+    (remoteWrite repaired (storeOf [changeable0, changeable2]) [[none, some 0, none, some 2, none]] .nodata .nil).1.readStore
+      = [[some 0, some 1, none, some 2, none], [some 2, some 1, none, some 2, none]] ∧
+    (remoteWrite repaired (storeOf [changeable0, changeable2]) [[none, some 0, none, some 2, none]] (.data ⟨some (selId 0), none⟩) .nil).1.readStore
+      = [[some 0, some 1, none, some 2, none], changeable2] ∧
+    (remoteWrite repaired (storeOf [changeable0, changeable2]) [] .nil (.data ⟨some (selId 0), some [none, some 0, none, some 0, none]⟩)).1.readStore
+      = [[some 0, some 1, none, none, none], changeable2] := by decide
 
 /-! ### C11 -/
 
